@@ -85,7 +85,8 @@ class X01(Pipeline):
         orig = vk.tlc_mc
 
         def limited(module, cfg=None, workers=vk.NCPU, timeout=1800, args=()):
-            return orig(module, cfg, workers=min(MAX_WORKERS, workers), timeout=timeout, args=args)
+            # one worker: the configurations are depth bounded through TLCGet("level"), which is exact only in sequential BFS
+            return orig(module, cfg, workers=1, timeout=timeout, args=args)
         vk.tlc_mc = limited
         try:
             return super().execute(tier)
